@@ -117,6 +117,9 @@ impl BaudEmulation {
     }
 }
 
+/// Macros may invoke macros; a macro that (directly or indirectly) invokes itself would recurse until the stack overflows.
+const MAX_MACRO_NESTING: usize = 8;
+
 pub struct Parser {
     pub(crate) state: EngineState,
     saved_pos: Position,
@@ -143,6 +146,7 @@ pub struct Parser {
     pub parse_string: String,
     pub macro_dcs: String,
     pub bs_is_ctrl_char: bool,
+    macro_depth: usize,
 }
 
 impl Default for Parser {
@@ -165,6 +169,7 @@ impl Default for Parser {
             last_char: '\0',
             hyper_links: Vec::new(),
             bs_is_ctrl_char: false,
+            macro_depth: 0,
         }
     }
 }
@@ -1449,11 +1454,17 @@ impl Parser {
         } else {
             return;
         };
+        if self.macro_depth >= MAX_MACRO_NESTING {
+            log::error!("Macro {} not invoked: nesting deeper than {}", id, MAX_MACRO_NESTING);
+            return;
+        }
+        self.macro_depth += 1;
         for ch in m.chars() {
             if let Err(err) = self.print_char(buf, current_layer, caret, ch) {
                 log::error!("Error during macro invocation: {}", err);
             }
         }
+        self.macro_depth -= 1;
     }
 
     fn execute_aps_command(&self, _buf: &mut Buffer, _caret: &mut Caret) {
